@@ -375,6 +375,14 @@ class Session:
         rng_mark() returned `mark` (the model of torch.manual_seed / set_rng_state to the same state)"""
         self.ctx.ghost["rng_position"] = mark
 
+    def returned_local(self, qualname, default):
+        """the local variable the repo function `qualname` returns (its accumulator), else `default`: loop contracts
+        name their state by this role, not by an incidental identifier"""
+        try:
+            return returned_local(self.find(qualname)) or default
+        except Exception:
+            return default
+
     def once(self, make):
         """the object under contract: made in the first round, the same object in the later rounds of a history
         scenario (requests are matched by their order)"""
